@@ -18,12 +18,19 @@ def _alarm(signum, frame):
 
 @contextlib.contextmanager
 def time_limit(seconds):
+    """limit on the CPU time of this process (ITIMER_PROF): a loaded machine must not turn a
+    short call into a spurious Timeout, a looping impl still burns CPU; a generous wall-clock
+    limit (ITIMER_REAL) stays as a backstop against blocking calls"""
     old = signal.signal(signal.SIGALRM, _alarm)
-    signal.setitimer(signal.ITIMER_REAL, seconds)
+    oldp = signal.signal(signal.SIGPROF, _alarm)
+    signal.setitimer(signal.ITIMER_REAL, seconds * 10 + 30)
+    signal.setitimer(signal.ITIMER_PROF, seconds)
     try:
         yield
     finally:
+        signal.setitimer(signal.ITIMER_PROF, 0)
         signal.setitimer(signal.ITIMER_REAL, 0)
+        signal.signal(signal.SIGPROF, oldp)
         signal.signal(signal.SIGALRM, old)
 
 
@@ -173,26 +180,40 @@ def model_grammar(gi, start_nt=None):
     return prods
 
 
-def dump_action(a):
+def dump_action(a, idx=None):
     from parglare.tables import ACCEPT, REDUCE, SHIFT
     if a.action == SHIFT:
-        return [0, a.state.state_id]
+        return [0, _state_index(a.state, idx)]
     if a.action == REDUCE:
         return [1, a.prod.prod_id]
     assert a.action == ACCEPT
     return [2]
 
 
+def _state_index(st, idx):
+    if idx is not None and id(st) in idx:
+        return idx[id(st)]
+    return st.state_id
+
+
 def dump_table(table, gi):
+    """states are numbered by their position in table.states and targets resolved by object
+    identity, so the dump is the automaton the LR driver walks whatever the state_id fields say
+    (GLR keys its stack by state_id: uniqueness of the ids is checked by C05)"""
     states = []
+    idx = {id(s): i for i, s in enumerate(table.states)}
     for i, s in enumerate(table.states):
-        assert s.state_id == i, "state ids are not positional"
-        acts = [[gi.term_index(t), [dump_action(a) for a in al]] for t, al in s.actions.items()]
-        gotos = [[gi.sym(nt)[1], st.state_id] for nt, st in s.gotos.items()]
+        acts = [[gi.term_index(t), [dump_action(a, idx) for a in al]] for t, al in s.actions.items()]
+        gotos = [[gi.sym(nt)[1], _state_index(st, idx)] for nt, st in s.gotos.items()]
         flags = [1 if f else 0 for f in getattr(s, "finish_flags", [False] * len(acts))]
         items = [[it.production.prod_id, it.position] for it in (s.items or [])]
         states.append([gi.sym(s.symbol), acts, gotos, flags, items])
     return states
+
+
+def state_ids_ok(table):
+    """every state carries its own distinct id, equal to its position"""
+    return [s.state_id for s in table.states] == list(range(len(table.states)))
 
 
 def dump_terms(gi):
